@@ -105,7 +105,12 @@ def streams(tier, rng, P, only=None, cases=None):
                 # no `l` command at all: the default length is a quarter note of the time base in effect, on the first track too
                 if rng.random() < 0.3: tbw = rng.choice([24, 1, 47, 40000, 32768, 65536]); tb = min(max(48, tbw), 32767)
                 src = "%s r%s n60" % (rng.choice(["TimeBase(%d)", "TimeBase=%d", "TIMEBASE(%d)", "TimeBase(96) TimeBase(%d)"]) % tbw, text); ds = None
-            elif form == "l": src = "TimeBase(%d) l%s r n60" % (tb, text); ds = None
+            elif form == "l":
+                if rng.random() < 0.15:
+                    nd = rng.choice([1, 1, 2, 3]); text = "." * nd; s = "0:0:~:%d" % nd; k = 1      # dots alone: the dotted default (`l.`)
+                # (the rest may follow the length directly, also after dots alone: `l.r`, `l4.r`)
+                sep = "" if (text and text[-1] in ".0123456789" and rng.random() < 0.5) else " "
+                src = "TimeBase(%d) l%s%sr n60" % (tb, text, sep); ds = None
             elif form == "bang_time": src = "TimeBase(%d) TIME(!%s) n60" % (tb, text); ds = "bang"
             else: src = "TimeBase(%d) TIME=!%s; n60" % (tb, text); ds = "bang"
             if not text and form in ("bang_time", "bang_arg", "l"):
